@@ -657,6 +657,15 @@ fn grid_sources(tier: Tier) -> Vec<String> {
         let known: String = filters.iter().cycle().take(n).enumerate().map(|(k, f)| format!("{{% if false %}}{{{{ x|{f}|nofilter{k} }}}}{{% endif %}}")).collect();
         out.push(format!("{known}{{{{ s|upper }}}}{{{{ l|join(',') }}}}{{{{ i is odd }}}}"));
     }
+    // parenthesised assignment targets nested up to and far beyond the parser's recursion limit
+    for n in [1usize, 10, 149, 150, 151, 400, 3000, 20_000] {
+        let (open, close) = ("(".repeat(n), ")".repeat(n));
+        out.push(format!("{{% set {open}x{close} = 1 %}}{{{{ x }}}}"));
+        out.push(format!("{{% for {open}x{close} in [1] %}}{{{{ x }}}}{{% endfor %}}"));
+        out.push(format!("{{% with {open}x{close} = 1 %}}{{{{ x }}}}{{% endwith %}}"));
+        let (open, close) = ("(".repeat(n), ",)".repeat(n));
+        out.push(format!("{{% set {open}x{close} = 1 %}}{{{{ x }}}}"));
+    }
     // repetition, formatting, concatenation with boundary counts
     for a in &ARGS[..n1] {
         for subj in ["s", "'ab'", "l", "(1, 2)", "range(3)", "ll", "e", "[]", "()"] {
@@ -880,6 +889,16 @@ fn loop_flow_cases() -> Vec<RenderCase> {
                 let c = |s: &str| s.to_string();
                 // where the call sits
                 sources.push((format!("{{% for x in {d} {rec}%}}[{{{{ {cf} }}}}]{{% endfor %}}"), vec![]));
+                // statements whose result is dropped, in front of a recursion inside an expression
+                sources.push((format!("{{% for x in {d} {rec}%}}{{% do range(1) %}}{{% for y in ['s'] if ({cf}) %}}{{% endfor %}}{{{{ [1, {cf}, 3] }}}}{{% endfor %}}|after"), vec![]));
+                sources.push((
+                    format!("{{% for x in {d} {rec}%}}{{% from 'a.txt' import mm %}}{{% for y in [7] if ({cf}) %}}{{% endfor %}}{{{{ [1, {cf}, 3] }}}}{{% endfor %}}|after"),
+                    vec![(c("a.txt"), c("{% macro mm() %}{% endmacro %}"))],
+                ));
+                // else blocks and filters of the (recursive) loop itself and of loops nested in it
+                sources.push((format!("{{% for x in {d} {rec}%}}{{{{ '<' ~ ({cf}) ~ '>' }}}}{{% else %}}E{{% endfor %}}|after"), vec![]));
+                sources.push((format!("{{% for x in {d} {rec}%}}{{% for y in [-5] if ({cf}) or true %}}{{{{ y }}}}{{% else %}}e{{% endfor %}}{{% else %}}E{{% endfor %}}|after"), vec![]));
+                sources.push((format!("{{% for x in {d} if x {rec}%}}[{{{{ {cf} }}}}]{{% else %}}E{{% endfor %}}{{{{ 1 + 1 }}}}"), vec![]));
                 sources.push((format!("{{% for x in {d} {rec}%}}{{% block item scoped %}}[{{{{ {cf} }}}}]{{% endblock %}}{{% endfor %}}"), vec![]));
                 sources.push((format!("{{% for x in {d} {rec}%}}{{% include 'a.txt' %}}{{% endfor %}}"), vec![(c("a.txt"), format!("<{{{{ {cf} }}}}>"))]));
                 sources.push((format!("{{% for x in {d} {rec}%}}{{% macro mm() %}}{{{{ {cf} }}}}{{% endmacro %}}{{{{ mm() }}}}{{% endfor %}}|after"), vec![]));
@@ -956,7 +975,7 @@ pub fn replay_any(ctx: &mut Ctx, rf: &ReplayFile) -> bool {
 }
 
 pub fn run(ctx: &mut Ctx) {
-    ctx.rule = "free-mode templates from a grammar over every statement and expression kind, every built-in filter/test/function/loop method with boundary arguments (0, +-1, 2^31, 2^63, 2^64, 2^127, 10^5+1, 2001 ...), companions a.txt/b.html/c.txt generated the same way (include/import/extends incl. cycles), 15% random character-level mutations (delete/insert delimiter/truncate), unparenthesised operator/postfix/elif ladders and statement nestings up to length 180, contexts of none/bool/int/float/string/list/map; run in worker processes of the debug (opt-level 0, overflow checks) and release builds on 2 MiB and 8 MiB threads; every returned error is formatted in all forms; part accumulators grows a namespace attribute over 6 000 - 120 000 loop steps with 15 step expressions (prepend/append/concatenate/chain/reverse/merge) and consumes it in 8 ways; part loop_object_flows enumerates 600 programs in which a (recursive) loop object is called from a block, an included template, a closure, a call block, a macro of the same and of an imported template, an inner loop, a filter block, or after its loop has ended. Oracle: the worker survives and no panic is caught. Non-trivial: the template loaded (the VM ran) or a syntax error was reported beyond line 0 of a source longer than 12 bytes. Distinct by case.".into();
+    ctx.rule = "free-mode templates from a grammar over every statement and expression kind, every built-in filter/test/function/loop method with boundary arguments (0, +-1, 2^31, 2^63, 2^64, 2^127, 10^5+1, 2001 ...), companions a.txt/b.html/c.txt generated the same way (include/import/extends incl. cycles), 15% random character-level mutations (delete/insert delimiter/truncate), unparenthesised operator/postfix/elif ladders and statement nestings up to length 180, contexts of none/bool/int/float/string/list/map; run in worker processes of the debug (opt-level 0, overflow checks) and release builds on 2 MiB and 8 MiB threads; every returned error is formatted in all forms; part accumulators grows a namespace attribute over 6 000 - 120 000 loop steps with 15 step expressions (prepend/append/concatenate/chain/reverse/merge) and consumes it in 8 ways; part loop_object_flows enumerates 850 programs in which a (recursive) loop object is called from a block, an included template, a closure, a call block, a macro of the same and of an imported template, an inner loop, a filter block, or after its loop has ended. Oracle: the worker survives and no panic is caught. Non-trivial: the template loaded (the VM ran) or a syntax error was reported beyond line 0 of a source longer than 12 bytes. Distinct by case.".into();
     ctx.assumptions = vec![
         "worker address space is limited to 6 GiB so template-chosen allocation sizes fail fast; a watchdog hit (no progress for 60 s) is counted as inconclusive, not as a violation".into(),
         "ladder lengths are capped (120/180) so that the listed deep-recursion finding does not end every campaign; its witness is run separately".into(),
